@@ -1,6 +1,10 @@
 /- Line-protocol driver: one case per input line, one canonical answer line per case. -/
 import Dblib.Model.PacketQueueDriver
 import Dblib.Model.Isolation
+import Dblib.Model.Decimal
+import Dblib.Model.Dsn
+import Dblib.Model.NamePool
+import Dblib.Model.Capability
 
 open Dblib
 
@@ -8,6 +12,10 @@ def handle (line : String) : String :=
   match words line with
   | "pq" :: args => PQ.run args
   | "iso" :: args => Isolation.run args
+  | "dec" :: args => Decimal.run args
+  | "dsn" :: args => Dsn.run args
+  | "pool" :: args => NamePool.run args
+  | "cap" :: args => Capability.run args
   | _ => "bad-model"
 
 partial def loop (h : IO.FS.Stream) (out : IO.FS.Stream) : IO Unit := do
